@@ -7,6 +7,14 @@ CHECKS = {
          "Every operation of the S3 trait x generated inputs x {path-style, virtual-hosted} x {no host parser, SingleDomain, MultiDomain 1-4} is sent by the independent SDK encoder through a wiretap into S3Service with a recording backend: exactly one call of exactly that method. Requests that denote no operation (by the Smithy model's method/path/query table) must yield an S3 error document and no call; all subsets of <=1 (thorough <=2) routing flags are enumerated for every no-op (method, path kind).",
          "Trusted: aws-sdk-s3 1.82 as encoder of well-formed requests, the Smithy model data/s3.json as routing table, the harness' recording backend generated from the S3 trait.",
          "DESIGN.md §4 C01"),
+ "C02": ("proptest-driven generated-input search; differential round trip client-encode (aws-sdk-s3) -> s3s decode with tree equality oracle; single-mutation rejection oracle on captured wire requests",
+         "For all 96 operations, generated typed inputs (every optional member independently present, header/query/XML alphabets, metadata maps, streamed bodies) are encoded by aws-sdk-s3 (directly and through the repo's proxy backend into a second adapter), and the input tree the backend receives must equal the generated one; each accepted wire request is then mutated once (duplicated single-valued member, near-miss text for int/bool/timestamp members, deleted required member, body length != Content-Length) and must be refused with a 4xx S3 error and no backend call.",
+         "Trusted: aws-sdk-s3 as encoder, Smithy model for bindings/required/list-ness, harness Tree rendering generated from dto/generated.rs. Members the SDK adds by itself are only checked for presence.",
+         "DESIGN.md §4 C02"),
+ "C03": ("proptest-driven generated-output search; differential s3s encode -> aws-sdk-s3 decode with tree equality, status/header oracle at the wiretap; virtual-clock schedule enumeration for the keep-alive body",
+         "For all 96 operations, generated typed outputs (plus 0-3 extra headers, optional status override) returned by a scripted backend are decoded by aws-sdk-s3 and must equal what was returned; wire status must be the model's code (206 with Content-Range) or the override; extra headers must be on the wire. CompleteMultipartUpload is run on a paused tokio clock for every completion delay 0..220 ms (thorough 0..450) x {ok, late error}: body = declaration, whitespace only, the same document as the undelayed run; header-bound members in declared trailers; late errors as <Error> documents.",
+         "Trusted: aws-sdk-s3 as decoder, Smithy model for status codes/bindings, tokio's paused clock. Number/timing of whitespace frames not asserted.",
+         "DESIGN.md §4 C03"),
  "C20": ("exhaustive enumeration of (pattern,string) pairs + proptest-driven random search against a dynamic-programming reference; JSON round-trip and out-of-grammar mutation oracle",
          "Exhaustive agreement with a DP reference matcher on all patterns over {a,b,*,?} up to length 6 (thorough: 7) x strings over {a,b} up to length 6 (thorough: 8); random longer/Unicode pairs and pattern sets; generated Policy values round-trip through JSON; mutated documents outside the IAM grammar must be refused.",
          "Trusted: the DP reference (validated against a naive recursive matcher at start-up), serde_json as the JSON reader/writer. Characters are Unicode scalars.",
